@@ -929,6 +929,18 @@ func (o *ovsdbClient) Monitor(ctx context.Context, monitor *Monitor) (MonitorCoo
 	defer o.rpcMutex.RUnlock()
 	db.monitorsMutex.Lock()
 	defer db.monitorsMutex.Unlock()
+	// The cache holds one copy of a table, whichever monitors cover it: the
+	// notifications of two monitors for one table would be applied on top of
+	// each other (an update2 difference twice, for instance).
+	for _, existing := range db.monitors {
+		for _, monitored := range existing.Tables {
+			for _, requested := range monitor.Tables {
+				if monitored.Table == requested.Table {
+					return cookie, fmt.Errorf("table %s is already monitored", requested.Table)
+				}
+			}
+		}
+	}
 	// Notifications for the new monitor can arrive before its reply has been
 	// applied to the cache (the connection is live when this is an additional
 	// monitor). Hold notifications back until the initial contents are in,
